@@ -25,7 +25,18 @@ def setup_imports():
 def write_input(d, case, name='in.bam'):
     p = case['params']
     path = os.path.join(d, name)
+    st = p.get('index_state')
+    if st and st[0] == 'stale':
+        # an earlier, different version of the file was indexed; the file was then re-written in place and the old index left behind
+        lib.write_input_bam(path, case['genome'], case['workload'][:max(1, len(case['workload']) // 2)], encoded=p.get('encoded', True), lib=p.get('lib', 'LIB'))
+        os.rename(path + '.bai', path + '.bai.old')
     lib.write_input_bam(path, case['genome'], case['workload'], encoded=p.get('encoded', True), lib=p.get('lib', 'LIB'))
+    if st and st[0] == 'stale':
+        os.replace(path + '.bai.old', path + '.bai')
+        t = os.path.getmtime(path)
+        os.utime(path + '.bai', (t - st[1], t - st[1]))     # simulated clock: the index is st[1] seconds older than the BAM
+    elif st and st[0] == 'missing':
+        os.remove(path + '.bai')
     return path
 
 
